@@ -741,11 +741,11 @@ class Emitter:
         raise NotImplementedError(op)
 
 BINOPS = set('add sub mul udiv sdiv urem srem shl lshr ashr and or xor fadd fsub fmul fdiv frem'.split())
-PASSTHRU = set('''malloc free memcpy memmove memset memcmp memchr strlen strcmp strncmp abort exit'''.split())
+PASSTHRU = set('''malloc free memcpy memmove memset memcmp bcmp memchr strlen strcmp strncmp abort exit'''.split())
 
 # ----------------------------------------------------------------------------- function bodies
 CASTS = set('trunc zext sext fptrunc fpext fptoui fptosi uitofp sitofp ptrtoint inttoptr bitcast addrspacecast'.split())
-NOTHROW = set('''malloc free memcpy memmove memset memcmp memchr strlen strcmp strncmp'''.split())
+NOTHROW = set('''malloc free memcpy memmove memset memcmp bcmp memchr strlen strcmp strncmp'''.split())
 
 EH_PARENTS = {  # libstdc++ standard exception hierarchy (typeinfo symbol -> parent)
     '@_ZTISt12out_of_range': '@_ZTISt11logic_error', '@_ZTISt12length_error': '@_ZTISt11logic_error',
@@ -755,6 +755,8 @@ EH_PARENTS = {  # libstdc++ standard exception hierarchy (typeinfo symbol -> par
     '@_ZTISt15underflow_error': '@_ZTISt13runtime_error', '@_ZTISt13runtime_error': '@_ZTISt9exception',
     '@_ZTISt9bad_alloc': '@_ZTISt9exception', '@_ZTISt20bad_array_new_length': '@_ZTISt9bad_alloc',
 }
+
+ENV_NOOP = re.compile(r'_ZNSt(12out_of_range|11range_error|13runtime_error|11logic_error|12length_error|16invalid_argument|9exception|12domain_error|14overflow_error|15underflow_error|9bad_alloc)(C[12]|D[012])E')
 
 class FE:
     """function emitter"""
@@ -1477,7 +1479,20 @@ class FE:
                         out.append('  for (uint64_t i_ = 0; i_ < n_%s; ++i_) d_%s[i_] = s_%s[i_]; }' % (k, k, k))
             return False
         if n.startswith('llvm.memset'):
-            out.append('verif_memset((uint8_t*)%s, %s, %s);' % (A[0], A[1], A[2])); return False
+            lv = ins['args'][2][1]; vv = ins['args'][1][1]
+            if isinstance(lv, VInt) and 0 < lv.v <= 512 and isinstance(vv, VInt):
+                # constant size: one aggregate assignment (no loop); typed when the destination is a bitcast of a typed pointer and the value is 0
+                et = s.elem_type_of(ins['args'][0][1])
+                if et is not None and vv.v == 0 and em.size_align(et)[0] == lv.v and isinstance(s.res(et), (TStruct, TArr)):
+                    em.need_complete(et)
+                    out.append('*(%s*)%s = (%s){0};' % (s.cty(et), A[0], s.cty(et)))
+                else:
+                    em.bytes_structs.add(lv.v)
+                    out.append('*(struct verif_B%d*)%s = (struct verif_B%d){{%s}};' % (lv.v, A[0], lv.v, ','.join([str(vv.v & 255)] * lv.v)))
+            else:
+                k = s.tmp()
+                out.append('{ uint64_t n_%s = %s; uint8_t* d_%s = (uint8_t*)%s; uint8_t c_%s = %s; for (uint64_t i_ = 0; i_ < n_%s; ++i_) d_%s[i_] = c_%s; }' % (k, A[2], k, A[0], k, A[1], k, k, k))
+            return False
         m_ = re.match(r'llvm\.(ctlz|cttz|ctpop|bswap|abs)\.i(\d+)$', n)
         if m_:
             out.append('%sverif_%s%s(%s);' % (asg, m_.group(1), m_.group(2), A[0])); return False
@@ -1488,6 +1503,12 @@ class FE:
         if m_:
             t = ins['rty']; pr = {'umin': 'ult', 'umax': 'ugt', 'smin': 'slt', 'smax': 'sgt'}[m_.group(1)]
             out.append('%s%s ? %s : %s;' % (asg, em.icmp(pr, t, A[0], A[1]), A[0], A[1])); return False
+        m_ = re.match(r'llvm\.(uadd|usub)\.sat\.i(\d+)$', n)
+        if m_:
+            t = ins['rty']
+            if m_.group(1) == 'usub': out.append('%s%s ? %s : %s;' % (asg, em.icmp('ugt', t, A[0], A[1]), em.binop('sub', t, A[0], A[1]), em.cint(s.res(t), 0)))
+            else: out.append('%s%s ? %s : %s;' % (asg, em.icmp('ult', t, em.binop('add', t, A[0], A[1]), A[0]), em.cint(s.res(t), -1), em.binop('add', t, A[0], A[1])))
+            return False
         m_ = re.match(r'llvm\.([us])(add|sub|mul)\.with\.overflow\.i(\d+)$', n)
         if m_:
             t = ins['rty']; et = s.res(t).els[0]
@@ -1554,10 +1575,10 @@ class FE:
                 msg = s.strarg(ins['args'][1]) or 'assert'
                 msg = re.sub(r'[^ -~]', '?', msg).replace('\\', '\\\\').replace('"', '\\"')
                 out.append('__CPROVER_assert(%s, "%s");' % (A[0], msg)); return False
-            if n in ('memcmp', 'strlen', 'strcmp', 'strncmp', 'memchr'):
-                cast = {'memcmp': '(int)memcmp((const void*)%s,(const void*)%s,%s)', 'strlen': '(uint64_t)strlen((const char*)%s)',
-                        'strcmp': '(int)strcmp((const char*)%s,(const char*)%s)', 'strncmp': '(int)strncmp((const char*)%s,(const char*)%s,%s)',
-                        'memchr': '(uint8_t*)memchr((const void*)%s,(int)%s,%s)'}[n]
+            if n in ('memcmp', 'bcmp', 'strlen', 'strcmp', 'strncmp', 'memchr'):
+                cast = {'memcmp': '(uint32_t)verif_memcmp((const uint8_t*)%s,(const uint8_t*)%s,%s)', 'bcmp': '(uint32_t)verif_memcmp((const uint8_t*)%s,(const uint8_t*)%s,%s)', 'strlen': '(uint64_t)verif_strlen((const uint8_t*)%s)',
+                        'strcmp': '(uint32_t)verif_strcmp((const uint8_t*)%s,(const uint8_t*)%s)', 'strncmp': '(uint32_t)verif_strncmp((const uint8_t*)%s,(const uint8_t*)%s,%s)',
+                        'memchr': '(uint8_t*)verif_memchr((const uint8_t*)%s,(int)%s,%s)'}[n]
                 out.append('%s%s;' % (asg, cast % tuple(A))); return False
             if n in ('memcpy', 'memmove', 'memset'):
                 out.append('verif_%s((uint8_t*)%s, %s, %s);' % (n, A[0], ('(const uint8_t*)' + A[1]) if n != 'memset' else '(uint8_t)' + A[1], A[2]))
@@ -1605,6 +1626,12 @@ static inline void verif_memmove(uint8_t* d, const uint8_t* s, uint64_t n) {
   if ((uintptr_t)d <= (uintptr_t)s) { for (uint64_t i = 0; i < n; ++i) d[i] = s[i]; }
   else { for (uint64_t i = n; i > 0; --i) d[i - 1] = s[i - 1]; } }
 static inline void verif_memset(uint8_t* d, uint8_t c, uint64_t n) { for (uint64_t i = 0; i < n; ++i) d[i] = c; }
+/* own C-library string kernels (CBMC 6 ships no memchr body; the others are kept explicit so that their loops are bounded like any other loop) */
+static inline int verif_memcmp(const uint8_t* a, const uint8_t* b, uint64_t n) { for (uint64_t i = 0; i < n; ++i) { if (a[i] != b[i]) return a[i] < b[i] ? -1 : 1; } return 0; }
+static inline uint64_t verif_strlen(const uint8_t* a) { uint64_t i = 0; while (a[i] != 0) ++i; return i; }
+static inline int verif_strcmp(const uint8_t* a, const uint8_t* b) { for (uint64_t i = 0;; ++i) { if (a[i] != b[i]) return a[i] < b[i] ? -1 : 1; if (a[i] == 0) return 0; } }
+static inline int verif_strncmp(const uint8_t* a, const uint8_t* b, uint64_t n) { for (uint64_t i = 0; i < n; ++i) { if (a[i] != b[i]) return a[i] < b[i] ? -1 : 1; if (a[i] == 0) return 0; } return 0; }
+static inline uint8_t* verif_memchr(const uint8_t* a, int c, uint64_t n) { for (uint64_t i = 0; i < n; ++i) if (a[i] == (uint8_t)c) return (uint8_t*)(a + i); return (uint8_t*)0; }
 static inline void* verif_new(uint64_t n) { void* p = malloc(n ? n : 1); __CPROVER_assume(p != 0); return p; }
 static inline void verif_delete(void* p) { free(p); }
 static inline uint32_t verif_ctlz32(uint32_t x) { return x == 0 ? 32 : (uint32_t)__builtin_clz(x); }
@@ -1666,6 +1693,9 @@ def emit_module(m, opts):
         em.need_complete(f.ret)
         sig = '%s %s(%s)' % (em.cty(f.ret), em.fname(n), args)
         protos.append(sig + ';')
+        if f.decl and ENV_NOOP.match(nm):
+            # binary-only libstdc++ environment functions whose effect is irrelevant (exception object ctors/dtors: only the type is compared)
+            bodies.append(sig + '\n{ %s }\n' % ('' if isinstance(f.ret, TVoid) else 'return (%s)0;' % em.cty(f.ret) if isinstance(em.res(f.ret), (TInt, TPtr, TFloat)) else 'return (%s){0};' % em.cty(f.ret)))
         if not f.decl and not (opts.stub and nm in opts.stub):
             fe = FE(em, f)
             try:
